@@ -17,7 +17,7 @@ from vmon.libutil import load_definition, monitored
 LEVEL = "exploration"
 SHARDS = {"quick": 16, "thorough": 16}
 MUST = ["yielded.clean", "yielded.flagged", "withheld.bad", "model.exact", "model.under", "model.over", "model.negative",
-        "reads.logged", "reads.negative_width", "reads.past_end"]
+        "reads.logged", "reads.negative_width", "reads.past_end", "repeated.streams", "reparse.same_raw_object"]
 RULE = ("case = (generated document, packet whose length is what the definition consumes -9..+9 bytes, or whose "
         "length-controlling fields make a computed size 0 or negative, parse_bad_pkts in {True, False}); each packet is "
         "offered to packet_generator as its own stream; the recorded read log and warnings of the step decide: clean "
@@ -133,6 +133,60 @@ def offer(ctx, defn, info, raw, out, parse_bad, has_dyn, wit_extra):
         ctx.violation(f"model/{out.consumption}-but-clean/{dyn}", f"model: {out.detail} at {out.error_at}; library delivered the packet without a warning", wit)
 
 
+def repeated(ctx, defn, info, raw, out, dyn, rng, wit_extra):
+    """the SAME packet several times in ONE generator run (identical APID, length and mismatch), mixed with a clean
+    header-only... no: with itself only - every occurrence must be flagged / withheld exactly like the first one"""
+    n = rng.randrange(2, 5)
+    stream = raw * n
+    for parse_bad in (True, False):
+        g = defn.packet_generator(stream, parse_bad_pkts=parse_bad)
+        steps = []
+        for _ in range(n + 1):
+            s = monitored(next, g)
+            steps.append(s)
+            if s.exc is not None:
+                break
+        g.close()
+        ctx.count("evaluations")
+        ctx.count("repeated.streams")
+        wit = dict(wit_extra, raw=raw, copies=n, parse_bad_pkts=parse_bad, model_consumption=out.consumption)
+        yielded = [s for s in steps if s.exc is None]
+        if any(s.exc is not None and not isinstance(s.exc, StopIteration) for s in steps):
+            continue    # a raising packet is 'failed with an exception'
+        flagged = [bool([w for w in s.warnings if harness.is_length_warning(w)]) for s in yielded]
+        ctx.sig("repeated", out.consumption, parse_bad, n)
+        if out.consumption == "exact":
+            if len(yielded) != n or any(flagged):
+                ctx.violation("repeated/clean-packet-treated-differently", f"{n} copies of a clean packet: {len(yielded)} yielded, flags {flagged}", wit)
+        else:
+            want = n if parse_bad else 0
+            if len(yielded) != want:
+                ctx.violation(f"repeated/{'withheld' if len(yielded) < want else 'yielded-although-excluded'}/occurrence>1",
+                              f"{n} copies of a length-mismatched packet with parse_bad_pkts={parse_bad}: {len(yielded)} yielded, expected {want}", wit)
+            elif not all(flagged):
+                k = flagged.index(False)
+                ctx.violation("repeated/delivered-clean/occurrence>1" if k else "repeated/delivered-clean/first",
+                              f"copy {k + 1} of {n} identical length-mismatched packets was yielded without the warning (flags {flagged})", wit)
+
+
+def reparse_same_raw_object(ctx, defn, info, raw, out, wit_extra):
+    """a RawPacketData object that has been parsed once is wrapped in a new CCSDSPacket and parsed again (e.g. the
+    raw_data of an unrecognized packet's partial data handed to another definition): the cursor accounting of the second
+    parse must be the same as of the first"""
+    from space_packet_parser import packets as P
+    obj = P.RawPacketData(raw)
+    res = []
+    for attempt in range(2):
+        pkt = P.CCSDSPacket(raw_data=obj)
+        s = monitored(defn.parse_ccsds_packet, pkt)
+        res.append((type(s.exc).__name__ if s.exc else None, pkt.raw_data.pos, len(pkt)))
+    ctx.count("evaluations")
+    ctx.count("reparse.same_raw_object")
+    if res[0] != res[1]:
+        ctx.violation("reparse/same-raw-object/cursor-accounting", f"first parse (exception, cursor, items) = {res[0]}, second parse of the same RawPacketData object = {res[1]}; model cursor {out.pos}",
+                      dict(wit_extra, raw=raw))
+
+
 def has_dynamic(doc):
     return any(not isinstance(getattr(t.enc, "length", 0), int) for t in doc.types)
 
@@ -165,6 +219,9 @@ def run(ctx):
                 continue
             for parse_bad in (True, False):
                 offer(ctx, ld.value, info, raw, out, parse_bad, dyn, {"doc": d})
+            if i % 3 == 0 and out.status == "ok":
+                repeated(ctx, ld.value, info, raw, out, dyn, rng, {"doc": d})
+                reparse_same_raw_object(ctx, ld.value, info, raw, out, {"doc": d})
             if d < 2 and i < 2:
                 ctx.sample({"doc": d, "raw": raw, "model": (out.status, out.consumption, out.pos, 8 * len(raw))})
     # ---- directed: the negative computed length that rewinds the cursor ------------------------------------------------
